@@ -29,10 +29,10 @@ CHECKS = {
         "level": "exploration",
         "technique": "property-based testing (rapid): generated formulas x graphs against an independent classical evaluator, plus metamorphic rewriting of the formula",
         "design_ref": "DESIGN.md §5 C01",
-        "level_text": "Random profiles over the full declarative language (and/or/not/if-then-else, nested/atLeast/atMost, every atomic kind through a witness table) are validated against generated graphs; the reported (severity, shape, focus node) set must equal what a 150-line classical evaluator computes, and a meaning-preserving rewriting of each formula placed in the same profile must report the same nodes. Propositional formulas are decided on all 2^k truth assignments of their atoms. Exploration is the right level: the space of formulas x graphs is infinite and the oracle is executable.",
+        "level_text": "Random profiles over the full declarative language (and/or/not/if-then-else, nested/atLeast/atMost, every atomic kind through a witness table) are validated against generated graphs; the reported (severity, shape, focus node) set must equal what a 150-line classical evaluator computes, and a meaning-preserving rewriting of each formula placed in the same profile must report the same nodes. Propositional formulas are decided on all 2^k truth assignments of their atoms. A further unit draws the arguments and the values of the atomic constraints themselves (patterns from a regular-expression grammar, lengths, integer and decimal bounds, lists, counts, property comparisons, in several YAML number spellings) and decides each atom and its negation by independent arithmetic. Exploration is the right level: the space of formulas x graphs is infinite and the oracle is executable.",
         "level_note": "Atom meaning is taken from an auditable witness table (boundary values per kind) that a self-test confirms against the validator in every run; atoms under negation are single-valued (DESIGN §6 I1). Trusted: OPA, json-gold, yaml.v3, rapid.",
         "rule": "case = (profile with 1-2 random formulas and optional rewritten twins, graph); propositional mode enumerates all truth assignments as target nodes, quantified mode draws graphs with cycles/shared children; non-trivial = the profile has >=1 connective or quantifier and some validation has both reported and unreported target nodes; distinct by sha1 of the case",
-        "assumptions": TRUST + ["negated per-value atoms are generated over single-valued properties only (I1)", "atom semantics checked at table witnesses, not over all regexes/numbers"],
+        "assumptions": TRUST + ["negated per-value atoms are generated over single-valued properties only (I1)", "atom semantics inside formulas come from the witness table; generated arguments and values are checked atom by atom (plain and negated), patterns through Go's regexp (the engine the policy language uses)", "one case in eight is validated while other goroutines compile: the schedule is not owned by the harness, the case is judged like a quiet one"],
         "units": [
             unit("table", "^TestC01AtomTable$", 0, 0, shards=(1, 1)),
             unit("formulas", "^TestC01$", 100, 500, timeout=(900, 3300)),
